@@ -73,6 +73,15 @@ def run(ctx):
             recs = [(n, s[:L]) for n, s in recs]
         elif mode < 0.45:    # identical residues under different names
             recs = [(n, recs[0][1]) if rng.random() < 0.5 else (n, s) for n, s in recs]
+        longnames = False
+        if i % 7 == 3 or rng.random() < 0.08:
+            # long descriptive names that agree in their first 256+ characters (FASTA headers are kept whole) on sequences of EQUAL length:
+            # the canonical order must still be decided by the full names
+            pre = "".join(rng.choice("abcdefghijklmnopqrstuvwxyz_|.") for _ in range(rng.choice([255, 256, 257, 300])))
+            L0 = min(len(q) for _, q in recs)
+            recs = [("%s_acc%05d" % (pre, rng.randrange(1000) * 100 + k), q[:L0] if k < max(2, len(recs) // 2) else q) for k, (nm, q) in enumerate(recs)]
+            ctx.count("long_common_prefix_names")
+            longnames = True
         t = rng.choice([3, 4, 5]) if kind == "protein" else rng.choice([0, 1, 2, 5])
         t = gen.fit_type(t, kind, recs)
         th = rng.choice([1, 8])
@@ -81,7 +90,7 @@ def run(ctx):
         k = rng.randrange(1, len(recs)); perms.append(recs[k:] + recs[:k])
         for _ in range(2 if ctx.quick else 5):
             p = list(recs); rng.shuffle(p); perms.append(p)
-        groups.append([Case(p, t, threads=th, fmt=rng.choice(["fasta", "clu", "msf"]), evlog=True) for p in perms])
+        groups.append([Case(p, t, threads=th, fmt=("fasta" if longnames else rng.choice(["fasta", "clu", "msf"])), evlog=True) for p in perms])
     sysrun.run_cases(kvh, [c for g in groups for c in g])
     fails = []
     for g in groups:
